@@ -234,3 +234,84 @@ def concrete_int(n, lo, hi):
         if n == c:
             return c
     raise ValueError(n)
+
+
+def lex_ok(s):
+    """every control sequence is lexically valid RTF; rendered numbers (holes) occur only as control-word parameters;
+    no raw character outside 7-bit ASCII"""
+    i, n = 0, len(s)
+    while i < n:
+        c = s[i]
+        if c == "\\":
+            if i + 1 >= n:
+                return False
+            d = s[i + 1]
+            if ("a" <= d <= "z") or ("A" <= d <= "Z"):
+                j = i + 1
+                while j < n and (("a" <= s[j] <= "z") or ("A" <= s[j] <= "Z")):
+                    j += 1
+                if j - (i + 1) > 32:
+                    return False
+                if j < n and s[j] == L:
+                    k = s.index(R, j)
+                    j = k + 1
+                    if j < n and s[j] in "0123456789":
+                        return False
+                else:
+                    if j < n and s[j] == "-":
+                        if not (j + 1 < n and s[j + 1] in "0123456789"):
+                            i = j
+                            continue
+                        j += 1
+                    k = j
+                    while k < n and s[k] in "0123456789":
+                        k += 1
+                    if k - j > 10:
+                        return False
+                    j = k
+                if j < n and s[j] == " ":
+                    j += 1
+                i = j
+            elif d == "'":
+                hx = s[i + 2:i + 4]
+                if len(hx) != 2 or any(ch not in "0123456789abcdefABCDEF" for ch in hx):
+                    return False
+                i += 4
+            elif d in "\\{}~_-*|:\n\r":
+                i += 2
+            else:
+                return False
+        elif c == L:
+            return False            # a rendered number outside a control-word parameter
+        else:
+            if ord(c) >= 128:
+                return False
+            i += 1
+    return True
+
+
+# ---- run pure string scanners untraced when their input is a concrete str (tracing every loop iteration of a scan over
+# a few hundred concrete characters dominates the cost of a path; symbolic strings still go through the traced version)
+try:
+    from crosshair.tracers import NoTracing as _NoTracing
+except Exception:  # noqa: BLE001
+    _NoTracing = None
+
+
+def _fast_when_concrete(fn):
+    def wrapper(s, *a):
+        if _NoTracing is not None:
+            with _NoTracing():
+                concrete = type(s) is str
+            if concrete:
+                with _NoTracing():
+                    return fn(s, *a)
+        return fn(s, *a)
+    wrapper.__name__ = fn.__name__
+    wrapper.__doc__ = fn.__doc__
+    return wrapper
+
+
+lex_ok = _fast_when_concrete(lex_ok)
+brace_depth_ok = _fast_when_concrete(brace_depth_ok)
+final_depth = _fast_when_concrete(final_depth)
